@@ -5,6 +5,7 @@ pub mod pre {
 use super::*;
 //@include prelude/path.rs
 //@include prelude/path_ext.rs
+//@include prelude/path_strip.rs
 } // mod pre
 use pre::*;
 
@@ -50,7 +51,28 @@ pub open spec fn op_editable_third_party(rs: Seq<PV>, ws: Option<PV>, file: PV) 
 }
 pub open spec fn opt_pbv(o: Option<PathBuf>) -> Option<PV> { match o { Some(p) => Some(pbv(&p)), None => None } }
 
+
+/// "lives in a site-packages directory": a whole path component named site-packages, looked for only BELOW the
+/// workspace root for files inside the workspace (so that where the workspace lives does not matter), in the whole
+/// path otherwise / when no workspace root is known
+pub open spec fn sp_name() -> Seq<char> { "site-packages"@ }
+pub open spec fn has_sp_component(p: PV) -> bool { exists|i: int| 0 <= i < p.len() && #[trigger] p[i] == sp_name() }
+pub open spec fn op_in_site_packages(ws: Option<PV>, file: PV) -> bool {
+    match ws {
+        Some(w) => if pv_is_prefix(w, file) { has_sp_component(file.skip(w.len() as int)) } else { has_sp_component(file) },
+        None => has_sp_component(file),
+    }
+}
+
 impl FixtureDatabase {
+/*@ extract src/fixtures/mod.rs is_in_site_packages
+@tags C01 C03 C13 C14
+@ret r
+@wrapexpr 1 `relevant .components() .any(|c| c.as_os_str() == "site-packages")` => `Self::vp_has_sp_component(relevant)` with fn vp_has_sp_component(relevant: &Path) -> (r: bool) ensures r == has_sp_component(pv(relevant))
+@sig
+    ensures r == op_in_site_packages(opt_pbv(self.workspace_root), pv(file_path)),
+@*/
+
 /*@ extract src/fixtures/mod.rs is_editable_install_third_party
 @tags C01 C03
 @ret r
@@ -89,6 +111,20 @@ pub proof fn lemma_C03_outside_all_roots(rs: Seq<PV>, ws: Option<PV>, file: PV)
 {
     if rs.len() > 0 { lemma_C03_outside_all_roots(rs.drop_first(), ws, file); }
 }
+//@tags C13 C14
+/// relocation: for a file inside the workspace the answer depends only on its path relative to the workspace root
+pub proof fn lemma_C13_site_packages_relocation(w1: PV, w2: PV, rel: PV)
+    ensures op_in_site_packages(Some(w1), w1 + rel) == op_in_site_packages(Some(w2), w2 + rel)
+{
+    assert((w1 + rel).skip(w1.len() as int) =~= rel);
+    assert((w2 + rel).skip(w2.len() as int) =~= rel);
+    assert((w1 + rel).subrange(0, w1.len() as int) =~= w1);
+    assert((w2 + rel).subrange(0, w2.len() as int) =~= w2);
+}
+proof fn canary_site_packages_substring(ws: PV, file: PV)
+    requires pv_is_prefix(ws, file), exists|i: int| 0 <= i < ws.len() && #[trigger] ws[i] == sp_name()
+    ensures op_in_site_packages(Some(ws), file)
+{}
 proof fn canary_every_editable_file_is_third_party(r: PV, w: PV, file: PV)
     requires pv_is_prefix(r, file)
     ensures op_editable_third_party(seq![r], Some(w), file)
